@@ -413,6 +413,9 @@ func runC11(w *mc.Worker) {
 				if a := fingerprint(st.Meta); a != fpMeta {
 					report("the metadata maps obtained from the store", fpMeta, a)
 				}
+				if !st.ZeroIntact() {
+					report("the number the store answered absent balances with", "0", "non-zero")
+				}
 				if sb1, sm1 := st.StaticMaps(); sb1 != nil {
 					if a := fingerprint(sb1); a != fpSB {
 						report("the balance maps obtained from the store", fpSB, a)
@@ -461,13 +464,21 @@ func runC11(w *mc.Worker) {
 					}
 					// (d) flags
 					base := outSig(RunReal(pr, copyVars(sc.Vars), env.New(env.Exact, sc.Bal, sc.Meta), nil))
-					for _, fs := range []map[string]struct{}{{}, {"unknown-flag": {}}, {interpreter.ExperimentalOverdraftFunctionFeatureFlag: {}}, {interpreter.ExperimentalOverdraftFunctionFeatureFlag: {}, "unknown-flag": {}}} {
+					baseOn := outSig(RunReal(pr, copyVars(sc.Vars), env.New(env.Exact, sc.Bal, sc.Meta), overdraftOn))
+					od := interpreter.ExperimentalOverdraftFunctionFeatureFlag
+					for _, fs := range []map[string]struct{}{{}, {"unknown-flag": {}}, {od: {}}, {od: {}, "unknown-flag": {}}, {"a-flag": {}, od: {}, "z-flag": {}}, {"a-flag": {}, "z-flag": {}}} {
 						got := outSig(RunReal(pr, copyVars(sc.Vars), env.New(env.Exact, sc.Bal, sc.Meta), fs))
-						_, on := fs[interpreter.ExperimentalOverdraftFunctionFeatureFlag]
+						_, on := fs[od]
 						w.Eval(fmt.Sprintf("flags|%s|%v", sc.Text, fs), sc.UsesO, "flags")
-						if got != base && !(sc.UsesO && on) {
-							c.Observed = fmt.Sprintf("flags %v: %s | no flags: %s", fs, got, base)
-							w.Violation("C11.flags", "feature flags changed the result of a script that does not use the gated feature", len(sc.Text), c)
+						// a script that does not call overdraft() ignores every flag; one that does depends on
+						// that flag alone: unrelated flags next to it change nothing
+						want := base
+						if sc.UsesO && on {
+							want = baseOn
+						}
+						if got != want {
+							c.Observed = fmt.Sprintf("flags %v: %s | expected, as with the gating flag alone / without flags: %s", fs, got, want)
+							w.Violation("C11.flags", "feature flags changed something other than the feature they gate", len(sc.Text), c)
 						}
 					}
 				}
@@ -496,10 +507,11 @@ func runC11(w *mc.Worker) {
 				return
 			}
 			verifrt.SetOrderChooser(nil)
-			base := outSig(RunReal(pr, copyVars(sc.Vars), env.New(env.Exact, sc.Bal, sc.Meta), overdraftOn))
+			twoFlags := map[string]struct{}{interpreter.ExperimentalOverdraftFunctionFeatureFlag: {}, "unknown-flag": {}}
+			base := outSig(RunReal(pr, copyVars(sc.Vars), env.New(env.Exact, sc.Bal, sc.Meta), twoFlags))
 			w.Inner(permBudget, func(in *mc.Explorer) {
 				verifrt.SetOrderChooser(in)
-				got := outSig(RunReal(pr, copyVars(sc.Vars), env.New(env.Exact, sc.Bal, sc.Meta), overdraftOn))
+				got := outSig(RunReal(pr, copyVars(sc.Vars), env.New(env.Exact, sc.Bal, sc.Meta), twoFlags))
 				pts := verifrt.MapPoints
 				verifrt.SetOrderChooser(nil)
 				perm := fmt.Sprint(in.Choices())
